@@ -1607,6 +1607,8 @@ def getattr(interp, obj, name, node=None):     # noqa: F811 - extends the attrib
             return _NDShape(obj)
         if name == 'ndim':
             return simplify_value(SInt(ND_NDIM(obj.obj)))
+        if name == 'size':
+            return simplify_value(SInt(ND_SIZE(obj.obj)))
         if name == 'dtype':
             return SDType(ND_DTYPE(obj.obj))
         if name in ('flatten', 'astype', 'copy'):
